@@ -199,6 +199,8 @@ func (r *RefCount[T]) WaitWithReleased(ctx context.Context, released func()) (pr
 	var currNonce uint32
 	var callReleasedOnce sync.Once
 	var ref *Ref[T]
+	// refSet is closed once ref has been assigned
+	refSet := make(chan struct{})
 	ref = r.AddRef(func(resolved bool, val T, err error) {
 		// note: r.mtx is held while calling this function.
 		// check if state is different, if we returned already.
@@ -206,6 +208,7 @@ func (r *RefCount[T]) WaitWithReleased(ctx context.Context, released func()) (pr
 			if !resolved || r.nonce != currNonce {
 				callReleasedOnce.Do(func() {
 					go func() {
+						<-refSet
 						ref.Release()
 						if released != nil {
 							released()
@@ -221,6 +224,7 @@ func (r *RefCount[T]) WaitWithReleased(ctx context.Context, released func()) (pr
 			prom.SetResult(val, err)
 		}
 	})
+	close(refSet)
 	return prom, ref
 }
 
